@@ -131,7 +131,7 @@ class World:
             cdef = ev.cell_def(inst, name)
             if v is None and cdef.cached and not ev.allow_none(inst, name):
                 return ("ERR", "NoneReturnedError")
-            return R.canon_ref(v)
+            return self._strip(R.canon_ref(v))
         except (R.RefError, RecursionError):
             return R.UNKNOWN
         except KeyError as e:
@@ -153,7 +153,19 @@ class World:
             if spelling == "value":
                 return c.value
             raise ValueError(spelling)
-        return val(lambda: canon(f()))
+        return val(lambda: self._strip(canon(f())))
+
+    def _strip(self, v):
+        """objects are named relative to the model so that values of twin models compare equal"""
+        if isinstance(v, dict):
+            if "obj" in v and isinstance(v["obj"], str):
+                o = v["obj"]
+                pre = self.name + "."
+                v = dict(v, obj="M." + o[len(pre):] if o.startswith(pre) else ("M" if o == self.name else o))
+            return {k: self._strip(x) for k, x in v.items()}
+        if isinstance(v, list):
+            return [self._strip(x) for x in v]
+        return v
 
     # ------------------------------------------------------------ ops
     def apply(self, op):
